@@ -11,7 +11,7 @@ Theorem checked_read_same_crc (r : reader) (off crc : N) (v : option bytes) :
   get_value_at r off crc false = Ok v -> crc64iso (payload_of v) = crc \/ crc = 0.
 Proof.
   unfold get_value_at. intros H.
-  destruct (match read_at (r_cd r) (r_data r) off with Err EOF => Ok None | x => x end) as [val|e]; [|discriminate].
+  destruct (read_at (r_cd r) (r_data r) off) as [val|e]; [|discriminate].
   cbn in H.
   destruct (crc64iso (payload_of val) =? crc) eqn:E.
   - inversion H; subst. left. apply N.eqb_eq. exact E.
@@ -33,7 +33,7 @@ Lemma unchecked_agrees (r : reader) off crc v :
   get_value_at r off crc false = Ok v -> get_value_at r off crc true = Ok v.
 Proof.
   unfold get_value_at.
-  destruct (match read_at (r_cd r) (r_data r) off with Err EOF => Ok None | x => x end) as [val|e]; [|discriminate].
+  destruct (read_at (r_cd r) (r_data r) off) as [val|e]; [|discriminate].
   cbn. destruct (crc64iso (payload_of val) =? crc); [auto|]. destruct (crc =? 0); [auto|discriminate].
 Qed.
 
@@ -105,3 +105,18 @@ Proof.
   replace (crc64iso crc0_value) with 0 by (symmetry; apply crc0_value_facts).
   destruct (crc64iso (payload_of v') =? 0); reflexivity.
 Qed.
+
+(* ---- fix 3f24fb5 (C11): an index entry whose value offset lies at or behind the end of the data file (the data file
+   lost its tail) is a read error under every option - it is never answered with the nil value, which a merge would
+   write out as a tombstone *)
+Lemma offset_behind_data_is_error (r : reader) (off crc : N) (skip : bool) :
+  lenN (r_data r) <= off -> exists e, get_value_at r off crc skip = Err e.
+Proof.
+  intros H. unfold get_value_at, read_at.
+  destruct (lenN (r_data r) <? off) eqn:E; [eexists; reflexivity|].
+  assert (S : sub (r_data r) off max_header_size = []).
+  { unfold sub. rewrite skipn_all2; [destruct (N.to_nat max_header_size); reflexivity|].
+    unfold lenN in H. lia. }
+  rewrite S. eexists; reflexivity.
+Qed.
+Print Assumptions offset_behind_data_is_error.
